@@ -66,9 +66,8 @@ _CHR = "Unicode facts of the Rust std taken as explicit hypotheses (checked exha
 
 TRUSTED = {
     '*': _BASE,
-    'C02': _BASE + ["the grammar of Rrss/Spec/Grammar.lean (stratified expression syntax, 14 simple statement kinds, nested blocks, programs) is what 'the same program' means: the theorems quantify over ITS syntax trees x every choice of keyword alias/optional word/token template (positions, snapshots), not over character strings: that lexing produces these tokens is C12's theorems plus the correspondence run",
-                    "hypotheses on token templates only: Choices.Sane (position snapshots readable, true of lexed tokens by C12) and Choices.NoIt (no template token is spelled `it`)",
-                    "not covered by a theorem (correspondence only): poetic assignments and `rock x like` inside programs (their literal is C11), end of input right after a header line, omitting only some of the closing blank lines"],
+    'C02': _BASE + ["the grammar of Rrss/Spec/Grammar.lean (stratified expression syntax, all 18 statement kinds incl. the four poetic forms, nested blocks, programs, every way of ending the input) is what 'the same program' means: the theorems quantify over ITS syntax trees x every choice of keyword alias/optional word/token template (positions, snapshots), not over character strings: that lexing produces these tokens is C12's theorems plus the correspondence run",
+                    "hypotheses on token templates only: Choices.Sane (position snapshots readable, true of lexed tokens by C12) and Fits (the four places where the parser reads the SPELLING of a token the grammar leaves free: the token after a bare `break` is not `it`; the line break after a poetic literal is not spelled like a word; the hyphen of `x is -5` is spelled `-`; the text of `x says ...` is the source slice between `says` and the line break); Fits is True for programs without these constructs"],
     'C03': _BASE + ["the model's own f64 Display/FromStr (Rrss/F64.lean, exact big-Nat algorithms) agree with Rust's: validated on every run (boundaries + random bit patterns)"],
     'C11': _BASE + [_NUM + 'mul_nat, add_nat (exact integer arithmetic up to 2^53), add_negzero (-0 + a = a)'],
     'C12': _BASE + [_CHR + "hnl (a line feed is whitespace)", "hkw: no keyword-table entry maps to newline/number/string/comment (decided on the regenerated table)"],
